@@ -118,3 +118,40 @@ Theorem load_check_ok : forall all,
   ((exists it, In it all /\ is_lref it = true) -> exists it, In it all /\ is_gfunc it = true).
 Proof. exact load_check_ok_proof. Qed.
 Print Assumptions load_check_ok.
+
+(* The items placed in the section of head h are exactly the members the size pass walks: items
+   h .. h + |members| - 1. *)
+Theorem section_members_exact : forall all h ith,
+  nth_error all h = Some ith -> is_data_like ith = true ->
+  place_of all h = Some {| p_head := h; p_off := 0 |} ->
+  forall i, (exists p, place_of all i = Some p /\ p_head p = h) <->
+            (h <= i /\ i - h < length (members all h)).
+Proof. exact section_members_exact_proof. Qed.
+Print Assumptions section_members_exact.
+
+(* Two items of one section never overlap: the earlier one ends before the later one starts
+   (with section_contiguous: no gaps and no overlaps). *)
+Theorem section_no_overlap : forall all i j p q iti itj,
+  i < j -> nth_error all i = Some iti -> nth_error all j = Some itj ->
+  place_of all i = Some p -> place_of all j = Some q -> p_head p = p_head q ->
+  p_off p + size_of all iti <= p_off q.
+Proof. exact section_no_overlap_proof. Qed.
+Print Assumptions section_no_overlap.
+
+(* Memory as the code writes it (one write per placed item: data/bss at load, ref/expr at link,
+   lref when the function is prepared), in ANY order, each item written once, given an allocator
+   that keeps the blocks of different sections apart: afterwards every item's bytes are found at
+   its place - no later write destroys an earlier one -, and no byte outside the items' ranges
+   (rounding padding, other memory) has been touched. *)
+Theorem memory_after_writes : forall base lab all ws m0,
+  blocks_disjoint base all ->
+  NoDup (map w_idx ws) -> (forall w, In w ws <-> In w (item_writes base lab all)) ->
+  (forall i p it k, nth_error all i = Some it -> place_of all i = Some p -> k < size_of all it ->
+     apply_writes ws m0 (base (p_head p) + Z.of_nat (p_off p) + Z.of_nat k)%Z
+     = nth_error (content base lab all it) k) /\
+  (forall x, (forall i p it, nth_error all i = Some it -> place_of all i = Some p ->
+                ~ (base (p_head p) + Z.of_nat (p_off p) <= x
+                   < base (p_head p) + Z.of_nat (p_off p) + Z.of_nat (size_of all it))%Z) ->
+             apply_writes ws m0 x = m0 x).
+Proof. exact memory_after_writes_proof. Qed.
+Print Assumptions memory_after_writes.
